@@ -218,6 +218,22 @@ func decodedEntriesAreFresh(c *Ctx, r *Report, rule string) {
 					}
 				}
 			}
+			if cell != nil && !inCycle(host, site) {
+				// a decode helper: the variable is local to a function that a loop calls once per entry — fresh by construction
+				calledInLoop := false
+				for _, g := range prodFuncs(c, "storage/wal") {
+					eachInstr(g, func(z ssa.Instruction) {
+						if cc := asCall(z); cc != nil && cc.StaticCallee() == rootFn(host) && inCycle(g, z) {
+							calledInLoop = true
+						}
+					})
+				}
+				if calledInLoop {
+					n++
+					r.OK(rule, fnName(host), "entry-decoded-into-fresh-variable", c.InstrPos(cl), "the entry is decoded into a variable local to a helper that the scan calls once per entry")
+				}
+				return
+			}
 			if cell == nil || !inCycle(host, site) {
 				return
 			}
